@@ -73,6 +73,45 @@ let () =
     | Some nm -> str_ints (List.map int_of_n nm));
   (* ckkey codes... -> the time (half units) read from a name *)
   register "ckkey" (fun t -> string_of_int (int_of_n (ck_key (List.map n_of_int (ints t)))));
-  register "ckparse" (fun t -> match ints t with
+  register "ckparsetime" (fun t -> match ints t with
     | [tm] -> string_of_int (int_of_n (ck_parse_time (ck_fmt06 (n_of_int tm))))
+    | _ -> "?args");
+  (* ckparse | nkeys kmin kmax krp | rank of key 0..nkeys-1 | defaults k:bits ... | entry ; entry ; ...
+     entry = key N bits  |  key E <prefix expression: i<k> l<bits> n + - * />     (bits = binary64, hexadecimal)
+     arithmetic = OCaml's IEEE binary64 (as the PrimFloat / CPython operations); mid a b = 0.5 * (a + b)
+     -> "wf=<0|1> ok v0 v1 ..." (bits or "-")  |  "wf=.. alone" | "wf=.. noprogress" | "wf=.. fuel" *)
+  register "ckparse" (fun t -> match split_on "|" t with
+    | [[]; [nk; kmin; kmax; krp]; ranks; defs; ents] ->
+      let fl s = Int64.float_of_bits (Int64.of_string ("0x" ^ s)) in
+      let bits x = Printf.sprintf "%Lx" (Int64.bits_of_float x) in
+      let rec expr toks = match toks with
+        | tok :: r when tok.[0] = 'i' -> (EId (nat_of_int (int_of_string (String.sub tok 1 (String.length tok - 1)))), r)
+        | tok :: r when tok.[0] = 'l' -> (ELit (fl (String.sub tok 1 (String.length tok - 1))), r)
+        | "n" :: r -> let (a, r1) = expr r in (ENeg a, r1)
+        | op :: r -> let (a, r1) = expr r in let (b, r2) = expr r1 in
+            (EBin ((match op with "+" -> OAdd | "-" -> OSub | "*" -> OMul | "/" -> ODiv | _ -> failwith "op"), a, b), r2)
+        | [] -> failwith "expr" in
+      let entry toks = match toks with
+        | k :: "N" :: [b] -> (nat_of_int (int_of_string k), CNum (fl b))
+        | k :: "E" :: r -> (nat_of_int (int_of_string k), CExpr (fst (expr r)))
+        | _ -> failwith "entry" in
+      let entries = List.map entry (List.filter (fun l -> l <> []) (split_on ";" ents)) in
+      let defaults = List.map (fun s -> match String.split_on_char ':' s with
+        | [k; b] -> (nat_of_int (int_of_string k), fl b) | _ -> failwith "default") defs in
+      let rk = Array.of_list (List.map int_of_string ranks) in
+      let rank k = let i = int_of_nat k in nat_of_int (if i < Array.length rk then rk.(i) else 0) in
+      let n = int_of_string nk in
+      let kmin = nat_of_int (int_of_string kmin) and kmax = nat_of_int (int_of_string kmax)
+      and krp = nat_of_int (int_of_string krp) in
+      let wf = if cp_wfb krp rank entries then "wf=1" else "wf=0" in
+      let mid a b = 0.5 *. (a +. b) in
+      (match cp_parse ( +. ) ( -. ) ( *. ) ( /. ) (fun x -> -. x) mid kmin kmax krp entries with
+       | CPOk _ ->
+         (match cp_get_constants ( +. ) ( -. ) ( *. ) ( /. ) (fun x -> -. x) mid kmin kmax krp defaults entries with
+          | Some st -> wf ^ " ok " ^ String.concat " " (List.init n (fun i ->
+              match st (nat_of_int i) with Some v -> bits v | None -> "-"))
+          | None -> wf ^ " ?")
+       | CPAlone -> wf ^ " alone"
+       | CPNoProgress -> wf ^ " noprogress"
+       | CPFuel -> wf ^ " fuel")
     | _ -> "?args")
